@@ -72,7 +72,34 @@ def check_effect_dispatch(repo, rep):
             if flag is not False:
                 rep.violation(rid, "dispatch|handling-flag", f"_is_handling_updated_order left {flag!r} after the dispatch")
             rep.instance(rid, key, {"before": str(b), "after": str(a), "handler": got})
-    rep.floor(rid, 10)
+    # a flip: Position._on_executed_order delivers the SAME order twice to the same strategy object - once for the close (size
+    # P -> 0), once for the opening of the opposite side (0 -> -r).  Both deliveries must be dispatched (what the first one leaves
+    # behind - chart markers, flags - must not swallow the second)
+    for sg in (1, -1):
+        def mk(dec, sg=sg):
+            it = Interp(repo, stubs=W.base_stubs(), samples=[{"P": F(2), "r": F(1), "E": F(10), "q": F(3), "p": F(11)}], nonneg={"P", "r", "E", "q", "p"}, decisions=dec)
+            ex = Obj("Exchange", name="exchange", attrs={"type": "futures"}, open_world=True)
+            pos = W.obj_of(repo, POSITION, "Position", "position", {"qty": num(0), "previous_qty": R.const(sg) * A("P"), "exchange": ex, "entry_price": A("E"), "symbol": SYM})
+            st = W.obj_of(repo, STRAT, "Strategy", "strategy", {"position": pos, "symbol": SYM, "_is_handling_updated_order": False, "_executed_orders": []})
+            for h in ("_on_open_position", "_on_close_position", "_on_increased_position", "_on_reduced_position"):
+                W.bind(st, h, (lambda hh: (lambda i, aa, k: i.event("handler", hh)))(h))
+            W.bind(st, "_handle_executed_order_for_chart", lambda i, aa, k: st.attrs["_executed_orders"].append({"order_id": i.getattr(aa[0], "id")}))
+            side = W.enum_value(repo, "sides", "SELL" if sg > 0 else "BUY")
+            o = W.make_order(repo, "O", side, "LIMIT", R.const(-sg) * A("q"), A("p"))
+
+            def go(it):
+                it.call(it.getattr(st, "_on_updated_position"), [o], {})
+                pos.attrs["previous_qty"] = num(0)
+                pos.attrs["qty"] = R.const(-sg) * A("r")
+                it.call(it.getattr(st, "_on_updated_position"), [o], {})
+            return it, go
+        for out in explore(mk, 32):
+            got = [e[1] for e in out.events if e[0] == "handler"]
+            if out.kind != "return" or got != ["_on_close_position", "_on_open_position"]:
+                rep.violation(rid, "dispatch|flip", f"a flipping order delivered twice to _on_updated_position (size {'P' if sg > 0 else '-P'} -> 0, then 0 -> {'-r' if sg > 0 else 'r'}) runs {got}, "
+                                                     f"expected [_on_close_position, _on_open_position]" + (f" ({out.value})" if out.kind != "return" else ""))
+            rep.instance(rid, f"flip|{'long' if sg > 0 else 'short'}", {"handlers": got})
+    rep.floor(rid, 12)
 
 
 # ------------------------------------------------------------------ R2 internal handler -> user hook
